@@ -9,12 +9,15 @@ import numpy as np
 
 PROPERTY = "C04"
 CLAIM = dict(
-    text="Every call site of an alphabet of 26 date-consuming public operations (SGP4 wrapper and native SGP4, Kepler, "
+    text="Every call site of an alphabet of 28 date-consuming public operations (SGP4 wrapper and native SGP4, Kepler, "
     "J2, numerical Kepler with maneuvers, Clohessy-Wiltshire with a maneuver, analytical Sun/Moon, JPL ephemeris, frame "
     "changes through both IAU chains, ephemeris interpolation and re-sampling, node events, station visibility events, "
     "TLE writer, OPM/OEM/OMM writers and readers in KVN and XML) is executed for the full product of the 6 labels of "
     "the argument date x the 6 labels of the object's epoch (x the 6 labels of maneuver dates) at 4 instants, one with "
     "the epoch and one with the argument 10 s before 0h UTC where the TAI/TT/GPS/TDB clocks already show the next day. "
+    "Every call site is also called twice in a row with the two labels of every ordered pair, once at the same instant and once "
+    "with the same calendar fields (two different instants), so that anything an operation remembers from its previous call "
+    "under the date's own-scale reading shows; OEM messages are also written from two segments with different labels. "
     "A relabelled date carries the same stored TAI instant (residual read from the stored fields, <= 1 us), so every "
     "difference of the physical result beyond |v| x residual is a dependence on the label. Exhaustive over the label "
     "product, which no test of the repository enters (all its dates are UTC).",
@@ -23,11 +26,15 @@ CLAIM = dict(
     technique="exhaustive product over scale labels on the real code, differential against the all-UTC execution",
 )
 RULE = (
-    "one case = (operation, instant, label of the epoch, label of the argument date, label of the maneuver dates); "
-    "non-trivial = at least one label differs from UTC (the all-UTC case is the reference itself); distinct by that tuple"
+    "one case = (operation, instant, label of the epoch, label of the argument date, label of the maneuver dates) or, for "
+    "call sequences, (operation, instant, label of the preceding call, label of this call, same instant | same clock fields): "
+    "the operation is called twice in a row in one process and the SECOND result is judged against the all-UTC call at its own "
+    "instant (itself computed right after an unrelated call); non-trivial = at least one label differs from UTC; distinct by that tuple"
 )
 BOUNDS = {
-    "quick": "26 call sites x 4 instants x 6x6 labels (x 6 maneuver labels where present), all of it",
+    "quick": "28 call sites x 4 instants x [6x6 labels (x 6 maneuver labels where present) + all 30 ordered label pairs of two "
+    "consecutive calls at the same instant + all 30 ordered pairs with the same clock fields under two labels (pairs with UTC "
+    "only for station visibility)], all of it",
     "thorough": "same product (the space is finite and small; nothing to deepen)",
 }
 ASSUMPTIONS = [
@@ -108,6 +115,34 @@ def dates_for(inst, Le, La, Lm):
     if max(res) > 2e-6:
         return None
     return dict(E=E, A=A, M1=M1, M2=M2, Eu=Eu, Au=Au, res=res[0] + res[1] + max(res[2:]))
+
+
+def dates_fields(inst, L):
+    """'same clock fields, another label': every date shows the calendar fields of the UTC dates of the instant, but is
+    labelled L -- another instant (shifted by the offset of L).  Eu/Au are the UTC equivalents of these instants."""
+    from beyond.dates import Date
+
+    base = dates_for(inst, "UTC", "UTC", "UTC")
+    if L == "UTC":
+        return base
+    out = {}
+    res = []
+    for k, ku in (("E", "Eu"), ("A", "Au"), ("M1", None), ("M2", None)):
+        x = Date(base[k].datetime, scale=L)
+        u = x.change_scale("UTC")
+        res.append(abs(stored_diff(u, x)))
+        out[k] = x
+        out[k + "u_"] = u
+    if max(res) > 2e-6:
+        return None
+    out["Eu"], out["Au"] = out["Eu_"], out["Au_"]
+    out["res"] = res[0] + res[1] + max(res[2:])
+    return out
+
+
+def dates_utc_of(d):
+    """the all-UTC dates of the instants of a 'same fields' set"""
+    return dict(E=d["Eu_"], A=d["Au_"], M1=d["M1u_"], M2=d["M2u_"], Eu=d["Eu_"], Au=d["Au_"], res=0.0)
 
 
 # ---------------------------------------------------------------------------
@@ -287,7 +322,11 @@ def op_visibility(d):
     from beyond.dates import timedelta
 
     sta = _G["station"]
-    pts = list(sta.visibility(kep_orbit(d["E"]), start=d["A"], stop=timedelta(hours=8), step=timedelta(seconds=120), events=True))
+    # window holding at least one pass of the station for each instant of the alphabet (first pass ~7 h after the
+    # 2010-06-15 epoch); the start of the search is the argument date itself wherever a pass follows within 4 h
+    off, hours = (5.5, 3) if d["Eu"].datetime.year == 2010 and d["Eu"].datetime.month == 6 else (0, 4)
+    start = d["A"] + timedelta(hours=off) if off else d["A"]
+    pts = list(sta.visibility(kep_orbit(d["E"]), start=start, stop=timedelta(hours=hours), step=timedelta(seconds=180), events=True))
     ev = [p for p in pts if p.event]
     # 2 cm of Earth-rotation quantisation (JD double, 40 us) seen from 2 000 km at >= 5e-4 rad/s of elevation rate
     out = {"events": ("dates", [p.date for p in ev], [str(p.event.info) for p in ev], 2e-5), "count": ("text", str(len(pts)))}
@@ -372,6 +411,41 @@ def _oem_mixed(d, fmt):
     return out
 
 
+def _oem_multi(d, fmt):
+    """a message made of two ephemerides (segments) whose dates carry different labels: first segment the label of
+    'epoch', second segment the label of 'arg'"""
+    from beyond.io import ccsds
+    from beyond.orbits import Ephem
+    from beyond.dates import timedelta
+
+    orb = kep_orbit(d["Eu"])
+    segs, want = [], []
+    for start, L in ((d["Au"], d["E"].scale.name), (d["Au"] + timedelta(seconds=1200), d["A"].scale.name)):
+        pts = list(orb.ephem(start=start, stop=timedelta(seconds=540), step=timedelta(seconds=60)))
+        for p_ in pts:
+            p_.date = label(p_.date, L)
+        want.append([p_.date for p_ in pts])
+        segs.append(Ephem(pts))
+    back = ccsds.loads(ccsds.dumps(segs, fmt=fmt))
+    if not isinstance(back, list):
+        back = [back]
+    out = {"segments": ("text", str([len(b) for b in back]))}
+    for i, b in enumerate(back[:2]):
+        for k in (0, len(b) - 1):
+            if k < len(want[i]):
+                out[f"s{i}p{k}"] = ("state", sv6(b[k]), "print", b[k].date)
+                out[f"s{i}d{k}"] = ("selfdate", b[k].date, want[i][k])
+    return out
+
+
+def op_oem_multi_kvn(d):
+    return _oem_multi(d, "kvn")
+
+
+def op_oem_multi_xml(d):
+    return _oem_multi(d, "xml")
+
+
 def op_oem_mixed_kvn(d):
     return _oem_mixed(d, "kvn")
 
@@ -425,6 +499,8 @@ OPS = {
     "oem_xml": (op_oem_xml, "EA", "oem.dumps-xml", A_),
     "oem_mixed_kvn": (op_oem_mixed_kvn, "EA", "oem.dumps-kvn/mixed-point-labels", frozenset()),
     "oem_mixed_xml": (op_oem_mixed_xml, "EA", "oem.dumps-xml/mixed-point-labels", frozenset()),
+    "oem_multi_kvn": (op_oem_multi_kvn, "EA", "oem.dumps-kvn/segments-with-different-labels", frozenset()),
+    "oem_multi_xml": (op_oem_multi_xml, "EA", "oem.dumps-xml/segments-with-different-labels", frozenset()),
     "omm_kvn": (op_omm_kvn, "E", "omm.dumps-kvn", frozenset()),
     "omm_xml": (op_omm_xml, "E", "omm.dumps-xml", frozenset()),
 }
@@ -467,10 +543,25 @@ def run_op(op, d):
         logging.disable(logging.NOTSET)
 
 
-def baseline(op, inst):
-    key = (op, inst)
+def _flush(op, inst):
+    """an unrelated call of the same operation: whatever the operation remembers of its last call is not about `inst`"""
+    other = "2012-arg-10s-before-0h" if inst == "2010-midday" else "2010-midday"
+    try:
+        run_op(op, dates_for(other, "UTC", "UTC", "UTC"))
+    except Exception:
+        pass
+
+
+def baseline(op, inst, fields=None):
+    """reference result: all dates UTC, computed right after an unrelated call.  fields=L: the instants of the
+    'same clock fields labelled L' set"""
+    key = (op, inst, fields)
     if key not in _G["base"]:
-        d = dates_for(inst, "UTC", "UTC", "UTC")
+        if fields in (None, "UTC"):
+            d = dates_for(inst, "UTC", "UTC", "UTC")
+        else:
+            d = dates_utc_of(dates_fields(inst, fields))
+        _flush(op, inst)
         _G["base"][key] = run_op(op, d)
     return _G["base"][key]
 
@@ -494,20 +585,38 @@ def check_case(case, t):
     from beyond.dates import timedelta
 
     op, inst, Le, La, Lm = case["op"], case["instant"], case["epoch"], case["arg"], case["man"]
+    mode, prev = case.get("mode"), case.get("prev")
     fn, varied, site, flags = OPS[op]
     fixed = op in ("frame1980", "frame2010", "visibility")
     if op == "jpl" and inst.startswith("1995"):
         t.exclude("JPL kernel de403_2000-2020 does not cover 1995")
         return
-    d = dates_for(inst, Le, La, Lm)
-    if d is None:
+    # mode None: one call, labels (Le, La, Lm), reference = the all-UTC call at the same instant.
+    # mode 'same-instant': the call with every date labelled Le comes right after the same call labelled `prev` (same instants).
+    # mode 'same-fields':  the call with every date showing the UTC calendar fields but labelled Le (another instant!) comes
+    #                      right after the call with the same fields labelled `prev`; reference = the all-UTC call at ITS OWN instants.
+    if mode == "same-fields":
+        d, d_prev = dates_fields(inst, Le), dates_fields(inst, prev)
+    else:
+        d = dates_for(inst, Le, La, Lm)
+        d_prev = dates_for(inst, prev, prev, prev) if mode else None
+    if d is None or (mode and d_prev is None):
         t.exclude("relabelled date is not the same instant within 2 us (subject of C03)")
         return
-    ref = baseline(op, inst)
+    ref = baseline(op, inst, Le if mode == "same-fields" else None)
     t.trans()
     t.states_add(1)
-    t.ev((op, inst, Le, La, Lm))
-    wh = which(Le, La, Lm, varied)
+    t.ev((op, inst, Le, La, Lm, mode, prev))
+    wh = which(Le, La, Lm, varied) if not mode else f"call-sequence/{mode}"
+    if mode:
+        varied = "EAM"
+        try:
+            run_op(op, d_prev)
+            t.trans()
+        except Exception as e:
+            t.fail(f"scale-label/{site}/{wh}/raises", "the operation succeeds whatever the label", case, "result", repr(e),
+                   f"{op} at {inst}, preceding call with label {prev}")
+            return
     used = [(d["Eu"], Le, "E"), (d["Au"], La, "A"), (d["Eu"], Lm, "M")]
     used = [(u, L) for u, L, role in used if role in varied and L != "UTC"]
     # (1) some varied label shows another calendar day than UTC at its date: the day-indexed EOP record is then
@@ -542,6 +651,8 @@ def check_case(case, t):
                f"{op} at {inst} with epoch {Le}, arg {La}, maneuver {Lm}")
         return
     where = f"{site} at {inst}: epoch label {Le}, argument label {La}, maneuver label {Lm}"
+    if mode:
+        where = f"{site} at {inst}: all dates labelled {Le} ({mode.replace('-', ' ')} as in the preceding call labelled {prev})"
     for name, r in ref.items():
         g = got.get(name)
         if g is None:
@@ -622,20 +733,35 @@ def check_case(case, t):
 # ---------------------------------------------------------------------------
 
 
+HEAVY = ("visibility",)  # ~0.2 s per call: call sequences only for the pairs involving UTC
+
+
+def seq_pairs(op):
+    pairs = [(a, b) for a in LABELS for b in LABELS if a != b]
+    if op in HEAVY:
+        pairs = [(a, b) for a, b in pairs if "UTC" in (a, b)]
+    return pairs
+
+
 def units(tier, seed):
     u = []
     for op in OPS:
         for inst in INSTANTS:
-            u.append((CFG, dict(op=op, instant=inst)))
+            for part in ("labels", "same-instant", "same-fields"):
+                u.append((CFG, dict(op=op, instant=inst, part=part)))
     return u
 
 
 def run_unit(p, t):
-    op, inst = p["op"], p["instant"]
-    for Le, La, Lm in label_sets(OPS[op][1]):
-        if (Le, La, Lm) == ("UTC", "UTC", "UTC"):
-            continue
-        check_case(dict(config=CFG, op=op, instant=inst, epoch=Le, arg=La, man=Lm), t)
+    op, inst, part = p["op"], p["instant"], p["part"]
+    if part == "labels":
+        for Le, La, Lm in label_sets(OPS[op][1]):
+            if (Le, La, Lm) == ("UTC", "UTC", "UTC"):
+                continue
+            check_case(dict(config=CFG, op=op, instant=inst, epoch=Le, arg=La, man=Lm), t)
+    else:
+        for prev, cur in seq_pairs(op):
+            check_case(dict(config=CFG, op=op, instant=inst, epoch=cur, arg=cur, man=cur, mode=part, prev=prev), t)
 
 
 def replay(case, t):
